@@ -178,6 +178,41 @@ def run(chk):
         "exhaustive": exhaustive,
     })
 
+    # ---- dist_in_2r: the distance the trackers hand to validate (oracle on the real function) ------------
+    import math
+    nd = 2000 if chk.tier == "quick" else 40000
+    rc, outd, _ = vlib.harness_run("constraints", ["dist", "--seed", chk.seed, "--n", nd])
+    dist_fail = None
+    dist_n = 0
+    unequal = 0
+    for line in outd.split("\n"):
+        if not line.startswith("dist "):
+            continue
+        f = dict(tok.split("=", 1) for tok in line.split()[2:])
+        lx, ly, la, lh = [vlib.f32_bits_to_float(int(x)) for x in f["l"].split(",")]
+        rx, ry, ra, rh = [vlib.f32_bits_to_float(int(x)) for x in f["r"].split(",")]
+        dist_n += 1
+        if f["lr"] == "P" or f["rl"] == "P":
+            dist_fail = dist_fail or (line, "dist_in_2r panicked on boxes with positive size")
+            continue
+        rl_ = math.sqrt((la * lh / 2) ** 2 + (lh / 2) ** 2)
+        rr_ = math.sqrt((ra * rh / 2) ** 2 + (rh / 2) ** 2)
+        if abs(rl_ - rr_) > 0.05 * max(rl_, rr_):
+            unequal += 1
+        ref = math.sqrt(((lx - rx) ** 2 + (ly - ry) ** 2) / ((rl_ + rr_) ** 2 + 1e-5))
+        for got_bits in (f["lr"], f["rl"]):
+            got = vlib.f32_bits_to_float(int(got_bits))
+            if abs(got - ref) > 1e-4 * max(1.0, ref):
+                dist_fail = dist_fail or (line, "dist_in_2r=%r but centre distance / sum of radii = %r" % (got, ref))
+    chk.coverage["dist_in_2r_pairs"] = dist_n
+    chk.coverage["dist_in_2r_pairs_with_unequal_radii"] = unequal
+    if dist_fail:
+        chk.violation("C20:dist_in_2r-not-centre-distance-over-radius-sum",
+                      "Universal2DBox::dist_in_2r is not the centre distance in units of the sum of the two bounding radii (or not symmetric)",
+                      {"input": dist_fail[0], "detail": dist_fail[1],
+                       "replay_cmd": "/verif/.cache/target/release/constraints dist --seed %d --n %d | grep '^%s '" % (chk.seed, nd, " ".join(dist_fail[0].split()[:2])),
+                       "broken": chk.broken})
+
     # ---- verdict -----------------------------------------------------------------------------
     if oracle_fail:
         # a concrete failing input against the property text, on the real code
